@@ -370,7 +370,7 @@ pub(crate) fn extract_code_block_start(line: &str) -> Option<(&str, &str, &str)>
         }
     }
 
-    language_start.map(|index| (&line[0..index], &line[index..], ""))
+    language_start.map(|index| (&line[0..index], line[index..].trim_end(), ""))
 }
 
 pub(crate) trait NumberedLines {
